@@ -48,7 +48,10 @@ TRUSTED = [
     "module-level / class-level state (of demeter: logging, decimal context, caches; of the strategy classes themselves) is outside the model and "
     "outside the generated behaviours: a strategy that keeps state in its class or module is not covered",
 ]
-ASSUMPTIONS = ["pandas copy-on-write is on (pandas >= 3); for pandas 2 the partial theorem needs strategies that do not overwrite frame values in place",
+ASSUMPTIONS = ["pandas copy-on-write isolates every in-place write into DataFrame.copy(deep=False) — measured on the installed pandas on every run (13 ways of "
+               "writing: iloc/loc/at/iat, column arithmetic, slices, masks, update, fillna(inplace), raw buffer writes), not read off its version; if a "
+               "write kind leaks the check reports it and asks the model with cow = false (the case of C19_manager_isolated_no_cow_partial, which needs "
+               "strategies that do not overwrite frame values in place)",
                "start method fork (Linux); the Windows branch is executed by patching the module's platform name inside the harness's worker process"]
 
 HERE = os.path.dirname(os.path.abspath(__file__))
@@ -61,10 +64,53 @@ except Exception:  # noqa: BLE001
 MARKET_SETS = [["uni_a"], ["uni_a", "uni_b"], ["uni_a", "aave"], ["deribit"], ["uni_a", "deribit"], ["uni_sq", "squeeth"], ["gmx"]]
 CALL, PUT = "ETH-22SEP23-1650-C", "ETH-22SEP23-1600-P"
 T0 = "2023-08-15 00:00:00"
-GENERIC = ["idle", "watcher", "mut_prices", "mut_data", "mut_nested", "mut_status", "mut_assets"]
-UNI = ["add1", "add2", "addremove", "buy", "sell", "rebalance", "failing", "indicator", "follower", "vandal"]
+GENERIC = ["idle", "watcher", "mut_prices", "mut_data", "mut_nested", "mut_status", "mut_assets", "trig_init", "trig_ctor"]
+UNI = ["add1", "add2", "addremove", "buy", "sell", "rebalance", "failing", "indicator", "follower", "vandal", "bad_price"]
 OPT = ["opt_buy", "opt_round", "opt_twice"]
 BEHAVIOURS = GENERIC + UNI + ["add_b", "aave_s", "aave_sb"] + OPT + ["sq_buy", "sq_short", "glp_buy", "glp_round"]
+
+
+def measure_cow():
+    """what the installed pandas does when a backtest writes into its `DataFrame.copy(deep=False)` of the shared frame (the frame
+    `_own_frame` hands out): for every way of writing a value in place, is the shared frame left alone?  {write kind: isolated}.
+    `C19_manager_isolated` assumes yes for all of them (copy-on-write); `C19_manager_isolated_no_cow_partial` is the statement for a pandas
+    that answers no."""
+    import warnings
+    import numpy as np
+    import pandas as pd
+    idx = pd.date_range(T0, periods=4, freq="min")
+
+    def shared():
+        return pd.DataFrame({"f": [1.0, 2.0, 3.0, 4.0], "i": np.array([1, 2, 3, 4], dtype="int64"),
+                             "o": pd.Series([Decimal(1), Decimal(2), Decimal(3), Decimal(4)], index=idx, dtype=object).values}, index=idx)
+    writes = {
+        "iloc[r,c]=": lambda d: d.iloc.__setitem__((1, 0), 99.0),
+        "loc[t,c]=": lambda d: d.loc.__setitem__((idx[1], "i"), 99),
+        "at[t,c]=": lambda d: d.at.__setitem__((idx[2], "o"), Decimal(99)),
+        "iat[r,c]=": lambda d: d.iat.__setitem__((2, 0), 99.0),
+        "col*=": lambda d: d.__setitem__("f", d["f"] * 2),
+        "col-slice=": lambda d: d["f"].iloc.__setitem__(slice(0, 2), 99.0),
+        "loc[:,c]=": lambda d: d.loc.__setitem__((slice(None), "i"), 7),
+        "values[...]=": lambda d: d["f"].values.__setitem__(0, 99.0),
+        "to_numpy()[...]=": lambda d: d["i"].to_numpy().__setitem__(0, 99),
+        "iloc[r]=": lambda d: d.iloc.__setitem__(0, [9.0, 9, Decimal(9)]),
+        "fillna(inplace)": lambda d: d.fillna(0, inplace=True),
+        "mask-assign": lambda d: d.__setitem__(d["f"] > 2, 0),
+        "update()": lambda d: d.update(pd.DataFrame({"f": [50.0]}, index=idx[:1])),
+    }
+    out = {}
+    for kind, w in writes.items():
+        base = shared()
+        ref = base.copy(deep=True)
+        view = base.copy(deep=False)
+        with warnings.catch_warnings():
+            warnings.simplefilter("ignore")
+            try:
+                w(view)
+            except Exception:  # noqa: BLE001   (a refused write — read-only buffer — cannot leak)
+                pass
+        out[kind] = bool(base.equals(ref) and list(base.dtypes) == list(ref.dtypes))
+    return out
 
 
 def applicable(markets):
@@ -189,9 +235,14 @@ def make_gmx_data(bars, seed):
 
 
 def frame_hash(df):
+    """column labels in order, dtype of every column, index and every cell with the Python type it holds (Decimal('1'), 1 and 1.0 differ; lists
+    nested in cells go in element by element): an added column, a converted cell and a changed dtype all change the hash"""
     h = hashlib.sha1()
-    h.update(",".join(map(str, df.columns)).encode())
-    h.update(df.to_csv().encode())          # lists nested in cells are written out element by element
+    h.update(repr([repr(c) for c in df.columns]).encode())
+    h.update(repr([str(t) for t in df.dtypes]).encode())
+    h.update((str(df.index.dtype) + repr(list(df.index.names)) + repr([repr(i) for i in df.index.tolist()])).encode())
+    for j in range(df.shape[1]):
+        h.update("|".join(type(v).__name__ + ":" + repr(v) for v in df.iloc[:, j].tolist()).encode())
     return h.hexdigest()
 
 
@@ -291,6 +342,12 @@ def probe_found(strategy):
         f["prices"] += len(pp) if c not in p.columns or len(p) != len(pp) else int((p[c] != pp[c]).sum())
     f["prices"] += len([c for c in p.columns if c not in pp.columns and c != "USD"])
     f["cells"] = str(f["cells"])
+    # process-wide and per-object state a backtest starts with: the Decimal context, and triggers already installed that are not this strategy's
+    import decimal
+    c = decimal.getcontext()
+    f["dctx"] = [c.prec, c.rounding, sorted(t.__name__ for t, on in c.traps.items() if on)]
+    own = getattr(strategy, "_own_triggers", [])
+    f["foreign_triggers"] = len([t for t in strategy.triggers if not any(t is o for o in own)])
     return f
 
 
@@ -304,6 +361,28 @@ def make_strategy_class():
             self.tokens = tokens or {}
             self.notes = []
             self.found = None
+            self._own_triggers = []
+            if behaviour == "trig_ctor":          # triggers installed when the strategy object is made
+                self._install_triggers()
+
+        def _install_triggers(self):
+            from datetime import timedelta
+            from demeter.strategy.trigger import PeriodTrigger, AtTimeTrigger
+            import pandas as pd
+            mine = [PeriodTrigger(timedelta(minutes=3), self._on_trigger, trigger_immediately=True, who="period"),
+                    AtTimeTrigger((pd.Timestamp(T0) + pd.Timedelta(minutes=2)).to_pydatetime(), self._on_trigger, who="at")]
+            self._own_triggers += mine
+            self.triggers.extend(mine)
+
+        def _on_trigger(self, snapshot, who):
+            # a trigger-driven strategy: trades on ITS OWN account (self.broker) whenever one of its triggers fires
+            self.notes.append(f"trigger:{who}:{snapshot.timestamp}")
+            if self._has("uni_a"):
+                self._try("trigger-buy", lambda: self._m("uni_a").buy(Decimal("0.05")))
+            elif self._has("gmx"):
+                self._try("trigger-glp", lambda: self._m("gmx").buy_glp(self.tokens["usdc"], Decimal(50)))
+            elif self._has("squeeth"):
+                self._try("trigger-sq", lambda: self._m("squeeth").buy_squeeth(eth_amount=Decimal("0.1")))
 
         def _m(self, k):
             name = k if isinstance(k, str) else self.market_names[min(k, len(self.market_names) - 1)]
@@ -326,6 +405,8 @@ def make_strategy_class():
             import pandas as pd
             self.found = probe_found(self)
             b = self.behaviour
+            if b == "trig_init":                  # the documented place to add triggers
+                self._install_triggers()
             if self._has("deribit") and (b in OPT or b == "watcher"):
                 self._try("deposit", lambda: self._m("deribit").deposit(Decimal(5)))
             if b == "indicator":
@@ -358,7 +439,14 @@ def make_strategy_class():
                 m.add_liquidity_by_tick(t - width, t + width, base, quote)
             # Deribit trades only on bars of its hourly grid: with minute bars (a Uniswap market is configured too) bars 0 and 60
             o1, o2 = (1, 2) if self.market_names == ["deribit"] else ((0, 60) if self._has("deribit") else (-1, -1))
-            if b == "indicator" and r in (2, 5):
+            if b == "bad_price" and r in (1, 4):
+                # a computed price that came out non-positive: the call is refused, the strategy catches the exception and goes on trading
+                m = self._m(0)
+                if r == 1:
+                    self._try("price-to-tick", lambda: m.price_to_tick(Decimal(0)))
+                    self._try("add-bad", lambda: m.add_liquidity(Decimal(-5), Decimal(2000), Decimal(1), Decimal(1000)))
+                self._try("buy", lambda: m.buy(Decimal("0.3")))
+            elif b == "indicator" and r in (2, 5):
                 sig = snapshot.market_status[self._m(0).market_info].sig
                 self._try(f"sig{sig}", lambda: self._m(0).buy(Decimal("0.2")) if sig == 2 else self._m(0).sell(Decimal("0.1")))
             elif b == "vandal" and r == 1:
@@ -584,6 +672,14 @@ def worker(spec_path):
     mgr = BacktestManager(config=config, data=data, strategies=strategies, backtest_config=BacktestConfig(interval=spec.get("interval", "1min")),
                           threads=spec["threads"])
     mgr.run()
+    if spec["threads"] == 1 or len(strategies) == 1:
+        # in-process path: the strategy objects the caller holds ARE the ones that ran; what they say once every backtest is over
+        for st in strategies:
+            try:
+                with open(os.path.join(spec["out"], st.sid + "__post.json"), "w") as f:
+                    json.dump(dump_state(st), f)
+            except Exception:  # noqa: BLE001   (a strategy that never ran has no account)
+                pass
     after = {mi.name: frame_hash(df) for mi, df in frames.items()}
     after["price"] = frame_hash(pdf)
     leftover = {m.market_info.name: count_positions(m) for m in config.markets}
@@ -668,7 +764,7 @@ def run_manager(spec, timeout=600):
                            timeout=timeout, env=dict(os.environ))
         res = {}
         for s in spec["strategies"]:
-            for sid in (s["sid"], s["sid"] + "_direct"):
+            for sid in (s["sid"], s["sid"] + "_direct", s["sid"] + "__post"):
                 fp = os.path.join(d, sid + ".json")
                 res[sid] = json.load(open(fp)) if os.path.exists(fp) else None
         mp = os.path.join(d, "_manager.json")
@@ -715,7 +811,7 @@ def solo_key(case, behaviour, arg):
 def run_solo(case, behaviour, arg):
     """the reference: the strategy alone, (a) through a manager with one strategy, (b) by a plain Actuator on fresh objects"""
     res, _, _, err = run_manager(dict(conf_of(case), threads=1, direct=True, strategies=[{"sid": "solo", "behaviour": behaviour, "arg": arg}]))
-    return {"manager": res["solo"], "direct": res["solo_direct"], "err": err}
+    return {"manager": res["solo"], "direct": res["solo_direct"], "post": res.get("solo__post"), "err": err}
 
 
 def run_case(case):
@@ -789,6 +885,17 @@ def judge_case(ctx, case, outcome, solo_cache, model_reqs):
             ctx.violate(f"manager.{path}.interference",
                         f"markets {mix}, prices {case['price_kind']}, threads={case['threads']}: strategy '{s['behaviour']}' run after {before} differs from running it alone — {d}", case)
             ok = False
+        # in-process path: the caller's strategy object after ALL backtests are over still says what it said when its own backtest ended
+        post, solo_post = res.get(s["sid"] + "__post"), solo.get("post")
+        if d is None and post is not None and solo_post is not None:
+            d2 = diff_dump(post, solo_post)
+            if d2 is not None:
+                pos = [x["sid"] for x in ordered].index(s["sid"])
+                after = [x["behaviour"] for x in ordered[pos + 1:]]
+                ctx.violate(f"manager.{path}.interference-after-own-backtest",
+                            f"markets {mix}, threads={case['threads']}: account / positions / actions of strategy '{s['behaviour']}' read from its object after the "
+                            f"manager returned differ from running it alone; the strategies run after it were {after} — {d2}", case)
+                ok = False
     kinds = "+".join(sorted(case["behaviours"]))
     ctx.case(f"{path}:t{case['threads']}:n{len(strategies)}:{mix}:{case['price_kind']}:{case.get('interval', '1min')}:{kinds}:{case.get('order_kind', 'id')}:{'ok' if ok else 'bad'}", case)
     # the manager model on the projection "what did each strategy find"
@@ -871,6 +978,15 @@ def gen_cases(ctx):
         fixed(["uni_a"], 1, ["mut_prices", "buy", "add1"], price_kind=pk)
         fixed(["deribit"], 1, ["mut_prices", "opt_buy", "idle"], args=[None, 0, None], price_kind=pk)
     fixed(["uni_a"], 2, ["mut_prices", "watcher", "sell"], price_kind="decimal")
+    # trigger-driven strategies (triggers installed by initialize() / at construction), in both orders, and one that provokes and catches a refusal
+    fixed(["uni_a"], 1, ["trig_init", "trig_init", "buy"])
+    fixed(["uni_a"], 1, ["trig_init", "idle", "trig_ctor"], order=[2, 1, 0], kind="rev")
+    fixed(["uni_a"], 1, ["trig_ctor", "trig_init", "watcher"])
+    fixed(["uni_a"], 2, ["trig_init", "trig_ctor", "trig_init"])
+    fixed(["gmx"], 1, ["trig_init", "glp_buy", "trig_init"])
+    fixed(["uni_a"], 1, ["bad_price", "buy", "add1"])
+    fixed(["uni_a"], 1, ["bad_price", "rebalance", "sell"])
+    fixed(["uni_a"], 2, ["bad_price", "add1", "buy", "sell"])
     fixed(["uni_a", "uni_b"], 1, ["mut_data", "add1", "watcher", "add_b"])
     fixed(["uni_a", "aave"], 1, ["mut_status", "mut_assets", "watcher", "aave_s"])
     # Squeeth refers to its oSQTH pool market: both are configured markets
@@ -900,7 +1016,31 @@ def gen_cases(ctx):
     return cases
 
 
+def cow_probe(ctx):
+    """the copy-on-write assumption of the theorems, measured on the installed pandas instead of read off its version number"""
+    global COW
+    try:
+        res = measure_cow()
+    except Exception as e:  # noqa: BLE001
+        ctx.note("pandas_cow_probe", f"failed: {type(e).__name__}: {e}"[:200])
+        return
+    leaks = sorted(k for k, ok in res.items() if not ok)
+    ctx.note("pandas_cow_measured", {"version": _pd.__version__, "isolated_write_kinds": sorted(k for k, ok in res.items() if ok), "leaking": leaks})
+    for k in res:
+        ctx.case(f"cow-probe:{k}:{'isolated' if res[k] else 'leaks'}")
+    if COW and leaks:
+        # the unrestricted theorem's hypothesis (cow = true) does not describe this pandas: from here on the model is asked with cow = false
+        # (the partial theorem's case), and the leak itself is reported — _own_frame's shallow copy does not isolate these writes
+        ctx.violate("manager._own_frame:shallow-copy-leaks:" + "+".join(leaks)[:80],
+                    f"pandas {_pd.__version__}: writing into DataFrame.copy(deep=False) by {leaks} changes the shared frame, so a strategy "
+                    f"that overwrites values of self.data in place changes what later strategies of the same process see", {"cow_probe": leaks})
+        COW = False
+    elif not COW and not leaks:
+        COW = True
+
+
 def run(ctx):
+    cow_probe(ctx)
     from common import driver_json
     from concurrent.futures import ThreadPoolExecutor
     cases = gen_cases(ctx)
@@ -956,6 +1096,9 @@ def run(ctx):
 def replay(ctx, case) -> bool:
     from common import Ctx
     sub = Ctx(ctx.prop, ctx.tier, ctx.seed, False)
+    if "cow_probe" in case:
+        res = measure_cow()
+        return all(res.get(k, True) for k in case["cow_probe"])
     if "args" not in case:
         case = dict(case, args=[None] * len(case["behaviours"]))
     case.setdefault("price_kind", "float")
